@@ -14,6 +14,7 @@
 //     disc nefc_d a_d[nv] qfrc_inverse_d[nv] efc_force_inv_d[nefc_d] fwdinv0 fwdinv1
 //     D[nefc] R[nefc] floss[nefc] jar[nefc] type[nefc] id[nefc] ncon {dim mu fr[5] adr}[ncon]      (jar = J qacc - aref)
 //     tbias                                                                                      (max |mj_tendonBias|)
+//     ds jnt_m2 jnt_single anyd         (damping-source stratum; joints with jnt_actuatorid == -2 / >= 0; any joint damping left)
 //   xfrc_q is computed here from mj_jac at the body centre of mass (not by mj_xfrcAccumulate).
 #include <stdio.h>
 #include <stdlib.h>
@@ -92,11 +93,52 @@ int main(int argc, char** argv) {
         mjsActuator* a = mjs_addActuator(spec, NULL); mjs_setName(a->element, "c09_ta");
         mjs_setToMotor(a); a->trntype = mjTRN_TENDON; mjs_setString(a->target, "c09_spatial");
         a->gear[0] = mjg_range(&rs, 0.5, 2); a->armature = mjg_range(&rs, 0.05, 0.5);
+        if (seed % 8 == 0) {   // a second one: tendon_actuatorid = -2 ("several actuators")
+          mjsActuator* a2 = mjs_addActuator(spec, NULL); mjs_setName(a2->element, "c09_ta2");
+          mjs_setToMotor(a2); a2->trntype = mjTRN_TENDON; mjs_setString(a2->target, "c09_spatial");
+          a2->gear[0] = mjg_range(&rs, 0.5, 2); a2->armature = mjg_range(&rs, 0.05, 0.5); a2->damping[0] = mjg_range(&rs, 0.1, 1);
+        }
+      }
+    }
+    // "damping source" stratum: where the velocity-dependent terms that the Euler integrator treats implicitly come from.
+    //   0 as generated (joint damping on many dofs)   1 none at all            2 joint damping on the LAST dof only
+    //   3 polynomial joint damping only (one dof)     4 ONE damped actuator    5 TWO damped actuators on one joint (jnt_actuatorid = -2)
+    //   6 two actuators with armature only on one joint (jnt_actuatorid = -2, zero damping)     7 damped + polynomial-damped actuators
+    // strata 1..7 remove every joint damping coefficient after compilation, so that the stratum's source is the only one.
+    int ds = (seed / 3) % 8;
+    int nda = 0;
+    if (ds >= 4) {
+      // first hinge / slide joint of the spec
+      const char* jn = NULL;
+      for (mjsElement* e = mjs_firstElement(spec, mjOBJ_JOINT); e && !jn; e = mjs_nextElement(spec, e)) {
+        mjsJoint* j = mjs_asJoint(e);
+        if (j && (j->type == mjJNT_HINGE || j->type == mjJNT_SLIDE)) jn = mjs_getString(mjs_getName(e));
+      }
+      if (jn) {
+        mjg_rng rd = {(uint64_t)seed * 0xD1B54A32D192ED03ULL + 5};
+        nda = (ds == 4) ? 1 : 2;
+        for (int k = 0; k < nda; k++) {
+          mjsActuator* a = mjs_addActuator(spec, NULL);
+          char nm[24]; snprintf(nm, sizeof(nm), "c09_da%d", k); mjs_setName(a->element, nm);
+          mjs_setToMotor(a); a->trntype = mjTRN_JOINT; mjs_setString(a->target, jn);
+          a->gear[0] = mjg_range(&rd, 0.5, 2);
+          if (ds == 6) a->armature = mjg_range(&rd, 0.02, 0.3);
+          else if (ds == 7 && k == 1) a->damping[1] = mjg_range(&rd, 0.05, 0.5);
+          else a->damping[0] = mjg_range(&rd, 0.2, 2.0);
+        }
       }
     }
     mjModel* m = mj_compile(spec, NULL);
     if (!m) { printf("X %d compile %s\n", seed, mjs_getError(spec)); mj_deleteSpec(spec); continue; }
     mj_deleteSpec(spec);
+    if (ds >= 1) {
+      mju_zero(m->dof_damping, m->nv);
+      mju_zero(m->dof_dampingpoly, mjNPOLY * m->nv);
+      if (ds == 2 && m->nv > 0) m->dof_damping[m->nv - 1] = 0.7;
+      if (ds == 3 && m->nv > 0) m->dof_dampingpoly[mjNPOLY * (m->nv / 2)] = 0.4;
+    }
+    int jnt_m2 = 0, jnt_single = 0;
+    for (int j = 0; j < m->njnt; j++) { jnt_m2 += m->jnt_actuatorid[j] == -2; jnt_single += m->jnt_actuatorid[j] >= 0; }
     mjg_rng r = {(uint64_t)seed * 2654435761ULL + 909};
     static const int integ[3] = {mjINT_EULER, mjINT_IMPLICIT, mjINT_IMPLICITFAST};
     m->opt.integrator = integ[seed % 3];
@@ -198,6 +240,12 @@ int main(int argc, char** argv) {
           mjtNum mxb = 0; for (int i = 0; i < nv; i++) mxb = mjMAX(mxb, mju_abs(tb[i]));
           printf(" %a", mxb);
           free(tb);
+        }
+        // H: damping-source stratum, number of joints with several / one damped-or-armature actuator, any joint damping left
+        {
+          int anyd = 0;
+          for (int i = 0; i < nv; i++) anyd |= (m->dof_damping[i] > 0) || !mju_isZero(m->dof_dampingpoly + mjNPOLY * i, mjNPOLY);
+          printf(" %d %d %d %d", ds, jnt_m2, jnt_single, anyd);
         }
         printf("\n");
         done++;
